@@ -216,7 +216,10 @@ def valBody (ext : Ext) (b : B) : SVal → R B
   | .f64 x => pushScalar ext b (.f64 x)
   | .char x => pushScalar ext b (.char x)
   | .str x => pushScalar ext b (.str x)
-  | .unitStruct x => pushScalar ext b (.unitStruct x)
+  | .unitStruct _ =>
+    match b with
+    | .unknownVariant _ => fail "Unknown variant does not support serialize_unit_struct"
+    | _ => noneBody b
 
 def callBody (ext : Ext) (b : B) : Call → R B
   | .val x => valBody ext b x
@@ -241,6 +244,9 @@ theorem push_eq_body (ext : Ext) (b : B) (x : SVal) (hs : ∀ v, x ≠ .some v) 
   | newtypeStruct n v => exact absurd rfl (hn n v)
   | none => rw [push, pushNone_eq_body]; rfl
   | unit =>
+    unfold push valBody
+    cases b <;> first | rfl | exact pushNone_eq_body _
+  | unitStruct n =>
     unfold push valBody
     cases b <;> first | rfl | exact pushNone_eq_body _
   | _ => unfold push valBody; rfl
